@@ -187,6 +187,11 @@ def find_peaks(data, threshold, *, box_size=3, footprint=None, mask=None,
     # Exclude peaks below the threshold
     peak_goodmask = np.logical_and(peak_goodmask, (data > threshold))
 
+    # Exclude NaN pixels. Their values were replaced above only to keep
+    # them out of the local maxima of their neighbors; they have no
+    # peak value of their own.
+    peak_goodmask = np.logical_and(peak_goodmask, ~nan_mask)
+
     y_peaks, x_peaks = peak_goodmask.nonzero()
     peak_values = data[y_peaks, x_peaks]
 
